@@ -42,7 +42,7 @@ let () =
     | _ -> raise (Bad "arity"));
   register "fam_matching" (function [n; es] ->
       let n = to_z n and es = to_edges es in
-      if graph_wf n es then formula_reply (matching_numvar es) (matching_ir n es)
+      if simple_graph_wf n es then formula_reply (matching_numvar es) (matching_ir n es)
       else raise (Bad "not a well-formed simple graph")
     | _ -> raise (Bad "arity"));
   register "fam_subsetcard" (function [adj; r; eq] ->
